@@ -77,7 +77,7 @@ def srswor_vc():
 
     def inv(I, f, k):
         gv = I.ex.ghost["gv"]
-        ell, rem = scalar(f.locals["remainder_ell"]), scalar(f.locals["remainder_t"])
+        ell, rem = scalar(ip.local(f, "remainder_ell")), scalar(ip.local(f, "remainder_t"))  # renamed locals: contract not applicable (exit 2)
         m = TOTAL - k  # positions of the population still ahead: an INTEGER term (bounds stated over the integers keep the solver
         # out of branch-and-bound over an unbounded real relaxation)
         left = z3.ToReal(z3.If(m > 0, m, 0))
